@@ -17,6 +17,8 @@ A session starts with `new …` (arguments as in domain `demo`).  Afterwards
 * `read`                    `DemoReader::new`, header accessors, `next_chunk` until the end or the first
                             error, all warnings; object sets are printed sorted by (type, id)
 * `last`                    the last object set the reader reports
+* `mutall`                  (implementation side only: `DemoReader` on every single-byte corruption and
+                            truncation of the file must not panic) prints the number of damaged copies
 -/
 namespace Tw.Drv.Demohl
 open Tw.Demo Tw.DemoHl Tw.Snap Tw.Drv
@@ -161,6 +163,7 @@ def step (s : Session) (toks : List String) : Session × String :=
       | "file", [] => (s, dataTok w.inner.file)
       | "read", [] => (s, readStr w.inner.file)
       | "last", [] => (s, lastStr w.inner.file)
+      | "mutall", [] => (s, s!"n {4 * w.inner.file.length}")
       | _, _ => (s, "bad-op")
   | _ => (s, "bad-op")
 
